@@ -317,7 +317,18 @@ pub fn gen_spec(r: &mut Rng) -> ElfSpec {
         notes_before,
         property_segment: r.chance(1, 3),
         empty_note_segment: Rng::new(r.0 ^ 0x1f83_d9ab_fb41_bd6b).chance(1, 5),
-        soname: if r.chance(4, 5) { Some(r.pick(&names).to_vec()) } else { None },
+        soname: {
+            let base = if r.chance(4, 5) { Some(r.pick(&names).to_vec()) } else { None };
+            // (sometimes a very long one: around NAME_MAX and beyond)
+            let mut q = Rng::new(r.0 ^ 0x2545_f491_4f6c_dd1d);
+            if base.is_some() && q.chance(1, 8) {
+                let n = *q.pick(&[254usize, 255, 255, 256, 300, 1000, 4000]);
+                let mut v = b"liblong".to_vec();
+                while v.len() < n - 5 { v.push(b'a' + (v.len() % 26) as u8); }
+                v.extend_from_slice(b".so.1");
+                Some(v)
+            } else { base }
+        },
         dyn_phdr: r.chance(3, 4),
         dyn_section: r.chance(3, 4),
         dyn_link: r.chance(2, 3),
